@@ -13,12 +13,28 @@ open Rooc.Lin.Gadget (B01)
 
 variable {K : Type} [Field K] [LinearOrder K] [IsStrictOrderedRing K] [FloorRing K]
 
-/-- the objective and both sides of every constraint (comparison or bare assertion) satisfy the contract
-`GoodE` over the domain `d`: declared used variables, finite literals, and — at every assignment that satisfies
-`d` — defined, with 0/1-valued operands of `and`/`or`. -/
+/-- the contract on a model with logic values and bare assertions, over the domain `d`: the objective and both
+sides of every constraint use declared used variables only, have finite literals, and have no `and`/`or` node
+that collapses to a non-0/1 value on the domains (`GoodS`; = not flagged `nary-singleton-nonbinary`).
+DEFINEDNESS IS NOT ASSUMED: it follows from the successful compilation (`LogicModel.obj_defined`,
+`process_defined`). -/
 structure LogicModel (m : Model (Ext K)) (d : List (DomVar (Ext K))) : Prop where
-  obj : GoodE d m.objective
+  obj : GoodS d m.objective
   cons : ∀ c ∈ m.constraints, SrcD d c
+
+/-- the objective of a model that compiles has a value wherever no and/or node collapses (finite literals). -/
+theorem obj_defined_at {m : Model (Ext K)} {b : BoundsMap (Ext K)} {d : List (DomVar (Ext K))}
+    {lm : LinModel (Ext K)} (h : linearizeWith m b d = .ok lm) (hf : FinE m.objective) (ρ : String → K)
+    (hnc : NC ρ m.objective) : Def ρ m.objective := by
+  obtain ⟨objExp, s1, obj, s2, s3, hsf, hlin, _, _⟩ := (linearizeWith_ok_iff _ _ _ _).mp h
+  obtain ⟨oe, hnorm, hs1⟩ := (simplifyFlat_ok _ _ _).mp hsf
+  cases hs1
+  exact (def_congr (normalize_eval_eq_nc hnorm hnc hf)).mp (def_of_linExp hlin (finiteLits_normalize hf hnorm) ρ)
+
+/-- the objective of a model that compiles is defined at every assignment satisfying the domains. -/
+theorem LogicModel.obj_defined {m : Model (Ext K)} {b : BoundsMap (Ext K)} {d : List (DomVar (Ext K))}
+    {lm : LinModel (Ext K)} (hm : LogicModel m d) (h : linearizeWith m b d = .ok lm) : DefOn d m.objective :=
+  fun ρ hd => def_iff_exists.mp (obj_defined_at h hm.obj.fin ρ (hm.obj.nc ρ hd))
 
 theorem initInvD {m : Model (Ext K)} {b : BoundsMap (Ext K)} {d : List (DomVar (Ext K))}
     (hm : LogicModel m d) (hnd : (d.map (·.name)).Nodup) (hbox : BoxEnforced b d) :
@@ -55,11 +71,12 @@ theorem linearizeWith_logic {m : Model (Ext K)} {b : BoundsMap (Ext K)} {d : Lis
     (∀ ρ : String → K, DomSat ρ d → (∀ c ∈ m.constraints, constraintHolds ρ c = true) →
       ∃ ρ' : String → K, (∀ x, inScope d x → ρ' x = ρ x) ∧ linFeasible lm ρ' = true ∧
         ∀ v, eval ρ m.objective = some v → linObjective lm ρ' = some v) := by
+  have hobjE : GoodE d m.objective := hm.obj.withDef (hm.obj_defined h)
   obtain ⟨objExp, s1, obj, s2, s3, hsf, hlin, hdrain, rfl⟩ := (linearizeWith_ok_iff _ _ _ _).mp h
   obtain ⟨oe, hnorm, hs1⟩ := (simplifyFlat_ok _ _ _).mp hsf
   cases hs1
   have hinv0 : LoopInvD d (initState m b d) := initInvD hm hnd hbox
-  obtain ⟨hoe, hoev⟩ := hm.obj.normalize hnorm
+  obtain ⟨hoe, hoev⟩ := hobjE.normalize hnorm
   have A : Spec (SrcD d) objExp (objReq m) (initState m b d) obj s2 :=
     lin_spec_all objExp _ _ _ _ ⟨hinv0.st, hoe.vars, hoe.fin⟩ hlin
   obtain ⟨hinv2, _, _⟩ := spec_states hinv0 A
@@ -79,7 +96,7 @@ theorem linearizeWith_logic {m : Model (Ext K)} {b : BoundsMap (Ext K)} {d : Lis
     exact A.sound ρ' hs2.dom hs2.q v (by rw [hoev ρ' hd0]; exact hv)
   · intro ρ hd hc
     have hs0 : Sat ρ (initState m b d) := (sat_init ρ).mpr ⟨hd, hc⟩
-    obtain ⟨v0, hv0⟩ := hm.obj.defd ρ hd
+    obtain ⟨v0, hv0⟩ := hobjE.defd ρ hd
     obtain ⟨ρ1, hag1, hd1, hq1, hval1⟩ := A.complete ρ hs0.dom hs0.q v0 (by rw [hoev ρ hd]; exact hv0)
     obtain ⟨ρ2, hag2, hs3⟩ := hst.complete ρ1 ⟨hd1, hq1, hrows2 ρ1⟩ trivial
     refine ⟨ρ2, fun x hx => by rw [hag2 x (A.scopeMono hx), hag1 x hx],
